@@ -322,6 +322,9 @@ func scribble(c *CfgCore) {
 		c.PN.N = poisonI
 	}
 	c.EmbS = poisonS
+	if c.Emb.M != nil {
+		c.Emb.M[poisonS] = poisonI
+	}
 	c.After = poisonI
 	if c.SkipM != nil {
 		c.SkipM[poisonS] = poisonI
